@@ -44,14 +44,18 @@ pub enum Inject {
     ThreadLocalHeld,
     /// `set_time_source(ts)` + `Timer::default()`, override removed right after creation
     ThreadLocalDropped,
+    /// `set_time_source(ts)` kept; before the timer is created an inner override with another
+    /// clock begins and ends (the outer one must be in force again)
+    ThreadLocalNested,
 }
-const INJECTS: [Inject; 3] = [Inject::Explicit, Inject::ThreadLocalHeld, Inject::ThreadLocalDropped];
+const INJECTS: [Inject; 4] = [Inject::Explicit, Inject::ThreadLocalHeld, Inject::ThreadLocalDropped, Inject::ThreadLocalNested];
 impl Inject {
     fn name(self) -> &'static str {
         match self {
             Inject::Explicit => "explicit:start_now_with_timesource",
             Inject::ThreadLocalHeld => "thread-local-held:start_now",
             Inject::ThreadLocalDropped => "thread-local-dropped:default",
+            Inject::ThreadLocalNested => "thread-local-outer-after-inner-override-ended:start_now",
         }
     }
     fn parse(s: &str) -> Option<Inject> {
@@ -93,6 +97,13 @@ fn exec(history: &[Op], inj: Inject, recs: &mut Vec<(usize, Rec)>) {
             let t = Timer::default();
             drop(g);
             t
+        }
+        Inject::ThreadLocalNested => {
+            tl_guard = Some(set_time_source(ts));
+            let decoy = ManuallyAdvancedTimeSource::at_time(UNIX_EPOCH + Duration::from_secs(77_000_000));
+            let inner = set_time_source(TimeSource::custom(decoy));
+            drop(inner);
+            Timer::start_now()
         }
     };
     for (i, &op) in history.iter().enumerate() {
